@@ -26,6 +26,7 @@ fn main() {
     let args = parse_args();
 
     install_quiet_panic_hook();
+    install_hang_watchdog("C11", 120, false);
 
     if let Some(path) = &args.replay {
         let kind = replay_kind(path);
@@ -33,10 +34,12 @@ fn main() {
 
         if kind == "composite" {
             let (_k, case): (String, sc::C11Comp) = load_replay(path);
+        hang_begin("replay", &case);
 
             finish_replay("C11", path, guard("C11", sc::run_c11_comp)(&case, &mut info));
         } else {
             let (_k, case): (String, sc::C11Prim) = load_replay(path);
+        hang_begin("replay", &case);
 
             finish_replay("C11", path, guard("C11", sc::run_c11_prim)(&case, &mut info));
         }
